@@ -21,6 +21,8 @@ pub mod hexbytes {
 
 pub const N_DOCS: usize = 4;
 pub const N_AUTHORS: usize = 4;
+/// all authors, including the ones only "many authors" runs use (indices N_AUTHORS..)
+pub const N_AUTHORS_ALL: usize = 28;
 pub const N_PEERS: usize = 9;
 
 pub struct World {
@@ -59,6 +61,24 @@ pub fn world() -> &'static World {
             .map(|i| Author::from_bytes(&grind(0x51 + i as u8, i % 2 == 1, &|s| Author::from_bytes(s).id().to_bytes())))
             .collect();
         authors.sort_by_key(|a| a.id());
+        // further authors for runs with many authors: their ids are all greater than the first
+        // four (found by trying secrets), so that the first four keep their indices and the whole
+        // list stays sorted by id - the reference model orders authors by index
+        let top = authors[N_AUTHORS - 1].id();
+        let mut more: Vec<Author> = Vec::new();
+        let mut secret = [0x60u8; 32];
+        let mut n = 0u32;
+        while more.len() < N_AUTHORS_ALL - N_AUTHORS && n < 5_000_000 {
+            secret[..4].copy_from_slice(&n.to_le_bytes());
+            n += 1;
+            let a = Author::from_bytes(&secret);
+            if a.id() > top {
+                more.push(a);
+            }
+        }
+        assert_eq!(more.len(), N_AUTHORS_ALL - N_AUTHORS, "key material: not enough authors above the first four");
+        more.sort_by_key(|a| a.id());
+        authors.extend(more);
         let mut peers: Vec<[u8; 32]> = (0..N_PEERS)
             .map(|i| *iroh::SecretKey::from_bytes(&[0x91 + i as u8; 32]).public().as_bytes())
             .collect();
@@ -195,6 +215,15 @@ impl GenCfg {
             marker_pct: *rng.pick(&[10, 25, 25, 40]),
             contents: rng.range(1, 3) as u8,
         }
+    }
+}
+
+/// Number of authors of a run: usually 1-3, one run in twelve 6-28.
+pub fn gen_author_count(rng: &mut Rng, usual_max: u64) -> u8 {
+    if rng.chance(1, 12) {
+        rng.range(6, N_AUTHORS_ALL as u64 - 1) as u8
+    } else {
+        rng.range(1, usual_max) as u8
     }
 }
 
